@@ -155,9 +155,16 @@ class Case:
         return out
 
     # ---------------------------------------------------------------- operations
+    def add(self, inst):
+        """register a new instance; reading every top-level property first makes the descriptors create their
+        lazily allocated empty lists now (ExtensionNodeProperty.__get__), not in the middle of a later operation"""
+        for name, _ in X.class_props(type(inst)):
+            getattr(inst, name)
+        self.insts.append(inst)
+
     def do_new(self):
         inst = X.construct(self.cls)
-        self.insts.append(inst)
+        self.add(inst)
         self.origin.append('new')
         return ['new', self.x_new_fields(inst)]
 
@@ -197,7 +204,7 @@ class Case:
                 continue
             removed = self.remove_defaulted(self.cls, node, p_remove / 100.0)
             inst = X.parse(self.cls, node)
-            self.insts.append(inst)
+            self.add(inst)
             self.origin.append('parse')
             return ['parse', self.x_parsed_fields(inst, node), removed]
         return ['skip']
@@ -206,12 +213,12 @@ class Case:
         src = self.insts[r]
         if not hasattr(src, 'mk_copy'):
             return self.do_deepcopy(r)
-        self.insts.append(src.mk_copy())
+        self.add(src.mk_copy())
         self.origin.append('mk_copy')
         return ['copy', r]
 
     def do_deepcopy(self, r):
-        self.insts.append(copy.deepcopy(self.insts[r]))
+        self.add(copy.deepcopy(self.insts[r]))
         self.origin.append('deepcopy')
         return ['deepcopy', r]
 
@@ -224,8 +231,13 @@ class Case:
             names = [n for n, _ in X.class_props(type(a))]
             setattr(a, hname, getattr(b, hname))
             self.emit(['write', dst, [], names.index(hname), self.intern(getattr(b, hname))])
+        # getattr(src, name) yields the IMPLIED value where src has none: dst receives it as an actual value
+        ov = []
+        for (name, p), raw in zip(X.class_props(type(b)), X.raw_fields(b)):
+            seen = getattr(b, name)
+            ov.append(self.intern(seen) if raw is None and seen is not None and not X.is_mutable(seen) else None)
         a.update_from_other_container(b)
-        return ['update', dst, src]
+        return ['update', dst, src, ov]
 
     def slots(self, obj, path, out, depth=0):
         """writable scalar members: (path, field index, owner, name, descriptor)"""
